@@ -55,10 +55,29 @@ def run(ctx):
         for op in "&|!":
             texts.append(("(" + op) * n + "(a=b)" + ")" * n)
     n_model_free = len(texts)
+    # numeric OIDs with arcs of more decimal digits than the interpreter's int/str limit (4300 by default, 640 when lowered), valid and with a
+    # leading zero, as attribute and as matching rule of every item kind: a filter or FilterSyntaxError, nothing else
+    for digits in (641, 4301, 6000):
+        arc = "7" * digits
+        for oid in ("1.2." + arc, arc + ".1", "1." + arc + ".3", "1.2.0" + arc, "2.5.4." + arc + ";lang-x"):
+            texts += ["(" + oid + "=v)", "(" + oid + ">=v)", "(" + oid + "=*)", "(" + oid + "=a*b)", "(cn:" + oid + ":=v)", "(" + oid + ":dn:=v)",
+                      "(&(a=b)(" + oid + "~=v))"]
     violations = []
     hist = collections.Counter()
     distinct = set()
     reqs = []
+    import sys as _sys
+    if hasattr(_sys, "set_int_max_str_digits"):
+        # the same long-arc texts once more with the limit an application may have lowered
+        _prev = _sys.get_int_max_str_digits()
+        _sys.set_int_max_str_digits(640)
+        try:
+            for t in [x for x in texts if len(x) > 640 and x.count("7") > 640][:60]:
+                v, cls = PF.direct_total(t)
+                hist["lowered-digit-limit:" + cls] += 1
+                violations.extend(v)
+        finally:
+            _sys.set_int_max_str_digits(_prev)
     for n_, t in enumerate(texts):
         if n_ % 3000 == 1000:
             PF.earlier_failures(rng, hist)       # failed parses in between: a refused text must leave nothing behind
